@@ -153,14 +153,19 @@ def build_surface(surface):
         s16[2] = tot & 0xFF
         s16[3] = surface.get("opus_spt", 18)
         s16[4] = surface.get("opus_tracks", surface["tracks"]) & 0xFF
-        for i, v in enumerate(vols):
+        # the table has one two-byte slot per volume LETTER (A..H); an absent volume has start track 0
+        used = set()
+        for v in vols:
+            i = "ABCDEFGH".index(v["label"])
+            used.add(i)
             s16[8 + 2 * i] = v["start_track"]
             s16[9 + 2 * i] = 0
         img[16 * SECTOR:17 * SECTOR] = s16
         img[17 * SECTOR:18 * SECTOR] = bytes(SECTOR)
         # unused catalogue slots in track 0 are zero
-        for i in range(len(vols), 8):
-            img[2 * i * SECTOR:(2 * i + 2) * SECTOR] = bytes(2 * SECTOR)
+        for i in range(8):
+            if i not in used:
+                img[2 * i * SECTOR:(2 * i + 2) * SECTOR] = bytes(2 * SECTOR)
     for i, v in enumerate(vols):
         flags = 0
         if variant == "hdfs":
@@ -169,7 +174,7 @@ def build_surface(surface):
         s0, s1 = encode_catalog_pair(v["title"], v["cycle"], v["boot"], v["total"], cats[0], flags,
                                      v.get("title_top", 0))
         if variant == "opus":
-            base = 2 * i
+            base = 2 * "ABCDEFGH".index(v["label"])
         else:
             base = 0
         img[base * SECTOR:(base + 1) * SECTOR] = s0
